@@ -59,6 +59,11 @@ def exact_part(ck, tier, rng):
             cases.append(dict(cfg=cfg, devs=fine, speed=(1, 1), initial=init, stim=[], delays=None, early=None, t_end=12_000_003))
             cases.append(dict(cfg=cfg, devs=devs, speed=(1000, 1), initial=init, stim=[], delays=None, early=None, t_end=12_000_003))
             cases.append(dict(cfg=cfg, devs=devs, speed=(250, 1), initial=init, stim=[], delays=None, early=None, t_end=30_000_003))
+    # wakeups DAYS of real time apart (a housekeeping callback far ahead, 3.5 days at speed 1): the wait is as long as it is
+    for cfg, devs in SMALL:
+        far = {d: (p[0], p[1] * 1_000_000, p[2]) for d, p in devs.items()}
+        for speed in ((1, 1), (2, 1)):
+            cases.append(dict(cfg=cfg, devs=far, speed=speed, initial=0, stim=[], delays=None, early=None, t_end=1_000_000_000_000_003))
     runs, terms = [], []
     for c in cases:
         t_end = c.get("t_end", sprops.T_END)
@@ -69,7 +74,8 @@ def exact_part(ck, tier, rng):
     bad = run_shards(PID + "_exact", sprops.HEADER, "sim_case", "check_exact", terms, shard_size=12)
     for c, r in zip(cases, runs):
         ck.count("exact:" + json.dumps([sprops.describe(c), c["delays"], c["early"]], sort_keys=True), len(r["mticks"]) >= 3)
-    ck.coverage.update(exact_pacing_runs=len(cases), exact_pacing_runs_with_sub_millisecond_gaps=sum(1 for c in cases if "t_end" in c), exact_pacing_early_interrupts=sum(1 for r in runs if r.get("early_before_scheduler")),
+    ck.coverage.update(exact_pacing_runs=len(cases), exact_pacing_runs_with_sub_millisecond_gaps=sum(1 for c in cases if c.get("t_end", 10 ** 18) < 10 ** 9),
+                       exact_pacing_runs_with_gaps_of_days=sum(1 for c in cases if c.get("t_end", 0) > 10 ** 14), exact_pacing_early_interrupts=sum(1 for r in runs if r.get("early_before_scheduler")),
                        exact_pacing_disagreements=len(bad))
     hit = [i for i in sorted(bad) if 97 in bad[i]]
     if hit:
